@@ -112,6 +112,25 @@ Definition well_framedb (s : str) : bool :=
       end
   end.
 
+(* Field structure, as a FIX parser that splits on SOH needs it: the frame is a sequence of
+   pieces  tag "=" value SOH  where the tag (the text before the first "=") is not empty and
+   neither tag nor value contains SOH; nothing is left over after the last SOH. *)
+Inductive fpos := AtStart | InTag | InValue.
+
+Fixpoint fields_scan (st : fpos) (s : str) : bool :=
+  match s with
+  | [] => match st with AtStart => true | _ => false end
+  | c :: s' =>
+      match st with
+      | AtStart => if N.eqb c 1 || N.eqb c 61 then false else fields_scan InTag s'
+      | InTag => if N.eqb c 1 then false else if N.eqb c 61 then fields_scan InValue s' else fields_scan InTag s'
+      | InValue => if N.eqb c 1 then fields_scan AtStart s' else fields_scan InValue s'
+      end
+  end.
+
+(* frame-level grammar and field structure together *)
+Definition well_framed_fieldsb (s : str) : bool := well_framedb s && fields_scan AtStart s.
+
 (* What AsyncFIXConnection.send_msg hands to the transport for the text the encoder returned:
    frame.encode("latin-1"); None = UnicodeEncodeError raised before anything is written. *)
 Definition wire (frame : str) : option str := latin1 frame.
